@@ -1051,9 +1051,46 @@ def gen_cases(ctx):
     return cases
 
 
+def corpus_cases():
+    """harness/corpus/c13/*.json: minimised past disagreements / witnesses, run first on every check"""
+    import glob
+    import json
+    import math
+    import os
+    out = []
+    here = os.path.join(os.path.dirname(os.path.dirname(os.path.abspath(__file__))), 'corpus', 'c13')
+    for path in sorted(glob.glob(os.path.join(here, '*.json'))):
+        for c in json.load(open(path))['cases']:
+            op = c['op']
+            key = ('corpus', os.path.basename(path), json.dumps(c, sort_keys=True))
+            desc = dict(c, corpus=os.path.basename(path))
+            if op == 'fp16':
+                out.append(('fp16', 'fp16 %d' % c['v'], lambda v=c['v']: real_fp16(v), desc, key, 'corpus:fp16',
+                            lambda m: ' '.join(fold_nan32(t) for t in m.split(' ')), None))
+            elif op == 'inc':
+                raw = bytes.fromhex(c['hex'])
+                out.append(('inc', 'inc ' + (raw.hex() or '-'), lambda raw=raw: real_incoming(raw), desc, key, 'corpus:inc', canon_model_incoming, None))
+            elif op == 'spatial':
+                out.append(('spatial', 'spatial ' + qtxt(c['x']), lambda x=c['x']: real_spatial(x), desc, key, 'corpus:spatial', None, None))
+            elif op == 'yaw':
+                out.append(('yaw', 'yaw ' + qtxt(math.degrees(c['rad'])), lambda a=c['rad']: real_yaw(a), desc, key, 'corpus:yaw', None, None))
+            elif op == 'cq':
+                v = to_int_quat(c['q'])
+                out.append(('cq', 'cq %d %d %d %d' % tuple(v), lambda q=c['q']: real_cq(q), desc, key, 'corpus:cq', None, lambda m, r, v=v: cmp_cq(m, r, v)))
+            elif op == 'dq':
+                out.append(('dq', 'dq %d' % c['comp'], lambda w=c['comp']: real_dq(w), desc, key, 'corpus:dq', dq_expected, None))
+            elif op == 'led':
+                leds = [tuple(l) for l in c['leds']]
+                leds = (leds * 12)[:12]
+                out.append(('led', 'led ' + ','.join('%d:%d:%d:%d' % l for l in leds), lambda leds=leds: real_led(leds), desc, key, 'corpus:led', None, None))
+            else:
+                raise ValueError('unknown corpus op %r in %s' % (op, path))
+    return out
+
+
 def correspond(ctx):
     _quiet()
-    cases = gen_cases(ctx)
+    cases = corpus_cases() + gen_cases(ctx)
     replies = ctx.lean(DRIVER, [c[1] for c in cases])
     for (kind, line, thunk, desc, key, cnt, post, cmp), model in zip(cases, replies):
         real = thunk()
@@ -1098,12 +1135,21 @@ def value_of(x):
 
 
 def search(ctx):
+    """The property itself (Python twins of the Lean specs) evaluated on the real code's observable behaviour."""
     _quiet()
+    import math
+    import struct
+    from fractions import Fraction
     import numpy as np
-    from cflib.utils.encoding import fp16_to_float
-    # (1) every half pattern decodes to a float with the binary16 value (spec twin AND numpy.float16)
+    from cflib.utils.encoding import compress_quaternion, decompress_quaternion, fp16_to_float
+    rng = ctx.rng
+    thorough = ctx.tier == 'thorough'
+
+    # (1) every half pattern decodes to a float with the binary16 value (spec twin AND numpy.float16); the signed reading too
     ref = np.arange(65536, dtype=np.uint16).view(np.float16).astype(np.float64)
-    for h in list(range(65536)) + list(range(-32768, 0)):
+    order = [0x8000, 0x7C00, 0xFC00, 0x7E00, 0x0000] + list(range(65536)) + list(range(-32768, 0))
+    nbad = 0
+    for h in order:
         try:
             got = value_of(fp16_to_float(h))
         except Exception as e:
@@ -1113,4 +1159,153 @@ def search(ctx):
         if got != want:
             cls = 'zero' if h & 0x7FFF == 0 else 'inf' if h & 0x7FFF == 0x7C00 else 'nan' if (h >> 10) & 31 == 31 else 'finite'
             key = 'D11-fp16-int-return' if got[0] == 'not-a-float' and got[1] == 'int' and cls != 'finite' else 'fp16-wrong-value'
+            nbad += 1
+            ctx.count('search:fp16:' + key)
+            if nbad > 8 and key == 'D11-fp16-int-return':
+                continue
             ctx.witness(key, 'fp16_to_float does not return the IEEE binary16 value as a float', {'float16': h}, got=str(got), want=str(want))
+
+    # (2) quaternion round trip: same rotation (common sign), every component within 2 steps, word < 2^32
+    step2 = 2.0 / (511 * math.sqrt(2))
+    for kind, q in gen_quats(rng, 4000 if thorough else 800):
+        try:
+            with np.errstate(all='ignore'):
+                comp = compress_quaternion(q)
+                d = decompress_quaternion(comp)
+        except Exception as e:
+            ctx.witness('quat-raises', 'compress/decompress of a non-zero quaternion raised', {'q': q}, got=repr(e))
+            continue
+        n = math.sqrt(sum(x * x for x in q))
+        errs = [max(abs(s * x / n - float(y)) for x, y in zip(q, d)) for s in (1.0, -1.0)]
+        if not (0 <= comp < 2 ** 32):
+            ctx.witness('quat-32bit', 'compressed quaternion does not fit 32 bits', {'q': q}, got=int(comp))
+        if not min(errs) <= step2 + 1e-12:
+            ctx.witness('quat-resolution', 'decompress(compress(q)) is further than two quantisation steps from +-q/|q|',
+                        {'q': q}, got=[float(y) for y in d], error_in_steps=min(errs) / (step2 / 2))
+
+    # (3) compressed trajectory coordinates / yaw: < 1 unit of error; overflow raises rather than wraps
+    from cflib.crazyflie.mem.trajectory_memory import CompressedSegment, CompressedStart
+    base = _base()
+    xs = [0.0, 0.0004, -0.0004, 1.001, -1.001, 32.767, -32.768, 32.7679, 32.768, -32.769, 40.0, -40.0, 65.535, 65.536, -65.537, 100.0]
+    xs += [rng.uniform(-34, 34) for _ in range(2000 if thorough else 400)] + [rng.randrange(-34000, 34000) / 1000.0 for _ in range(400)]
+    for x in xs:
+        e = base._encode_spatial(x)
+        if not abs(Fraction(e) - Fraction(x) * 1000) < 1:
+            ctx.witness('spatial-error', '_encode_spatial is a millimetre or more away from the coordinate', {'x': x}, got=e)
+        try:
+            raw = bytes(CompressedStart(x, 0.0, x, 0.0).pack())
+            back = struct.unpack('<hhhh', raw)
+            if not (-32768 <= e <= 32767) or back[0] != e or back[2] != e:
+                ctx.witness('spatial-wrap', 'out-of-range coordinate packed (wrapped) instead of raising', {'x': x}, got=list(back), encoded=e)
+        except struct.error:
+            if -32768 <= e <= 32767:
+                ctx.witness('spatial-raise', 'in-range coordinate raised', {'x': x}, encoded=e)
+        try:
+            raw = bytes(CompressedSegment(1.0, [x], [], [x, 0.0, x], []).pack())
+            back = struct.unpack('<' + 'h' * 4, raw[3:])
+            if not (-32768 <= e <= 32767) or list(back) != [e, e, 0, e]:
+                ctx.witness('spatial-wrap', 'out-of-range coordinate packed (wrapped) instead of raising', {'x': x, 'in': 'segment'}, got=list(back), encoded=e)
+        except struct.error:
+            if -32768 <= e <= 32767:
+                ctx.witness('spatial-raise', 'in-range coordinate raised', {'x': x, 'in': 'segment'}, encoded=e)
+    angs = [0.0, math.pi, -math.pi, 57.19, -57.19, 57.2, 1e-4] + [rng.uniform(-60, 60) for _ in range(1000 if thorough else 300)]
+    for a in angs:
+        e = base._encode_yaw(a)
+        tenths = Fraction(math.degrees(a)) * 10
+        if not abs(Fraction(e) - tenths) < 1 or abs(e - a * 1800 / math.pi) >= 1 + 1e-6:
+            ctx.witness('yaw-error', '_encode_yaw is a tenth of a degree or more away from the angle', {'rad': a}, got=e)
+        try:
+            back = struct.unpack('<hhhh', bytes(CompressedStart(0.0, 0.0, 0.0, a).pack()))
+            if not (-32768 <= e <= 32767) or back[3] != e:
+                ctx.witness('yaw-wrap', 'out-of-range yaw packed (wrapped) instead of raising', {'rad': a}, got=list(back), encoded=e)
+        except struct.error:
+            if -32768 <= e <= 32767:
+                ctx.witness('yaw-raise', 'in-range yaw raised', {'rad': a}, encoded=e)
+
+    # (4) LED RGB565, all 256 x 101 (level, intensity) pairs on all channels
+    prev = {}
+    table = {}
+    pairs = [(c, i) for i in range(101) for c in range(256)]
+    for k in range(0, len(pairs), 12):
+        chunk = pairs[k:k + 12] + [(0, 0)] * (12 - len(pairs[k:k + 12]))
+        r = real_led([(c, c, c, i) for c, i in chunk])
+        if not r.startswith('ok '):
+            ctx.witness('led-raises', 'LED write_data raised for in-range colours', {'leds': chunk}, got=r)
+            continue
+        raw = bytes.fromhex(r[3:])
+        for n, (c, i) in enumerate(chunk):
+            w = (raw[2 * n] << 8) | raw[2 * n + 1]
+            table[(c, i)] = (w >> 11, (w >> 5) & 63, w & 31)
+    for (c, i), f in sorted(table.items()):
+        if c == 0 and f != (0, 0, 0):
+            ctx.witness('led-black', 'black does not map to 0', {'level': c, 'intensity': i}, got=f)
+        if c == 255 and i == 100 and f != (31, 63, 31):
+            ctx.witness('led-white', 'white at full intensity is not full scale', {'level': c, 'intensity': i}, got=f)
+        if c > 0 and any(a < b for a, b in zip(f, table[(c - 1, i)])):
+            ctx.witness('led-monotone', 'RGB565 channel decreases when the 8-bit level increases', {'level': c, 'intensity': i}, got=f, below=table[(c - 1, i)])
+        if i > 0 and any(a < b for a, b in zip(f, table[(c, i - 1)])):
+            ctx.witness('led-monotone-intensity', 'RGB565 channel decreases when the intensity increases', {'level': c, 'intensity': i}, got=f)
+    for _ in range(100):       # channels are independent: a mixed colour is the combination of the single-channel values
+        r8, g8, b8, i = rng.randrange(256), rng.randrange(256), rng.randrange(256), rng.randrange(101)
+        raw = bytes.fromhex(real_led([(r8, g8, b8, i)] * 12)[3:])
+        w = (raw[0] << 8) | raw[1]
+        want = (table[(r8, i)][0], table[(g8, i)][1], table[(b8, i)][2])
+        if (w >> 11, (w >> 5) & 63, w & 31) != want or len(raw) != 24:
+            ctx.witness('led-mix', 'mixed colour is not the combination of its channels', {'rgb': [r8, g8, b8], 'intensity': i}, got=w, want=want)
+        rt = real_ledt([(1, r8, g8, b8, 0, 0, 0)])
+        full = (table[(r8, 100)][0] << 11) | (table[(g8, 100)][1] << 5) | table[(b8, 100)][2]
+        if rt != 'ok ' + bytes([1, full >> 8, full & 255, 0, 0, 0, 0, 0]).hex():
+            ctx.witness('ledt-colour', 'timings driver encodes a different RGB565 word', {'rgb': [r8, g8, b8]}, got=rt, want=full)
+
+    # (5) range reports / lighthouse angle stream: decode what an (independent) device-side encoder produced
+    def f32v(bits):
+        return struct.unpack('<f', struct.pack('<I', bits))[0]
+
+    def same(a, b):
+        return (math.isnan(a) and math.isnan(b)) if isinstance(a, float) and isinstance(b, float) and (math.isnan(a) or math.isnan(b)) else \
+            (type(a) is type(b) and struct.pack('<d', a) == struct.pack('<d', b))
+    from cflib.crazyflie.localization import Localization
+    from cflib.utils.callbacks import Caller
+
+    def decode(raw):
+        loc = Localization.__new__(Localization)
+        loc.receivedLocationPacket = Caller()
+        got = []
+        loc.receivedLocationPacket.add_callback(got.append)
+        loc._incoming(_Pk(raw))
+        return got
+    for _ in range(1500 if thorough else 300):
+        n = rng.choice([0, 1, 2, 3, 5, 6, 12, 40])
+        ids = rng.sample(range(256), n)
+        dist = [rng.choice(SPECIAL_F32) if rng.random() < 0.3 else rng.getrandbits(32) for _ in range(n)]
+        raw = bytes([0]) + b''.join(bytes([i]) + d.to_bytes(4, 'little') for i, d in zip(ids, dist))
+        try:
+            got = decode(raw)
+            ok = len(got) == 1 and got[0].type == 0 and isinstance(got[0].data, dict) and sorted(got[0].data) == sorted(ids) and \
+                all(same(got[0].data[i], f32v(d)) for i, d in zip(ids, dist))
+        except Exception as e:
+            ok, got = False, repr(e)
+        if not ok:
+            ctx.witness('range-decode', 'range report does not decode to the encoded anchor distances', {'ids': ids, 'dist': dist}, got=str(got)[:300])
+    halfs = np.arange(65536, dtype=np.uint16).view(np.float16).astype(np.float64)
+    trials = [(rng.choice(SPECIAL_F32), [h, h ^ 0x8000, 0x3C00], rng.choice(SPECIAL_F32), [0, 0x8000, h]) for h in SPECIAL_F16]
+    for _ in range(3000 if thorough else 600):
+        trials.append((struct.unpack('<I', struct.pack('<f', rng.uniform(-3.2, 3.2)))[0], [rng.choice(SPECIAL_F16) if rng.random() < 0.3 else rng.getrandbits(16) for _ in range(3)],
+                       struct.unpack('<I', struct.pack('<f', rng.uniform(-3.2, 3.2)))[0], [rng.choice(SPECIAL_F16) if rng.random() < 0.3 else rng.getrandbits(16) for _ in range(3)]))
+    for bx, ox, by, oy in trials:
+        bs = rng.randrange(16)
+        raw = bytes([10, bs]) + bx.to_bytes(4, 'little') + b''.join(o.to_bytes(2, 'little') for o in ox) + \
+            by.to_bytes(4, 'little') + b''.join(o.to_bytes(2, 'little') for o in oy)
+        wantx = [f32v(bx)] + [f32v(bx) - float(halfs[o]) for o in ox]
+        wanty = [f32v(by)] + [f32v(by) - float(halfs[o]) for o in oy]
+        try:
+            got = decode(raw)
+            d = got[0].data
+            ok = len(got) == 1 and d['basestation'] == bs and all(same(a, b) for a, b in zip(d['x'], wantx)) and all(same(a, b) for a, b in zip(d['y'], wanty))
+            shown = {'x': d['x'], 'y': d['y']}
+        except Exception as e:
+            ok, shown = False, repr(e)
+        if not ok:
+            zero_like = any(o & 0x7FFF == 0 or (o >> 10) & 31 == 31 for o in ox + oy)
+            ctx.witness('D11-lh-angle' if zero_like else 'lh-angle-decode', 'lighthouse angle-stream packet does not decode to base - half-float offset',
+                        {'base_x': bx, 'offsets_x': ox, 'base_y': by, 'offsets_y': oy}, got=str(shown)[:300], want=str({'x': wantx, 'y': wanty})[:300])
